@@ -63,6 +63,28 @@ KANI = [
          functions=[], bounds="vacuity twin"),
 ]
 
+KANI += [
+    # ---- C11 integer kernels -----------------------------------------------------------------
+    dict(name="c11_set_mode_keeps_type_bits", file="verif_entry", props=["C11", "C12"], tier="quick", weight=1,
+         functions=["MemfsEntry::set_mode", "MemfsEntryOpts::mode"], bounds="every (dir,file,link) x every mode/uid/gid x every permission value <= 0o7777"),
+    dict(name="c11_set_mode_default", file="verif_entry", props=["C11", "C12"], tier="quick", weight=1,
+         functions=["MemfsEntry::set_mode(None)"], bounds="every entry kind"),
+    dict(name="c11_set_owner_exact", file="verif_entry", props=["C11", "C12"], tier="quick", weight=1,
+         functions=["MemfsEntry::set_owner"], bounds="every Option<u32> pair, every entry"),
+    dict(name="c11_exec_readonly_agree_with_mode", file="verif_entry", props=["C11", "C12"], tier="quick", weight=1,
+         functions=["Entry::is_exec (default)", "Entry::is_readonly (default + VfsEntry override)"], bounds="every u32 mode, Memfs/Stdfs/Vfs entries"),
+    # ---- C13 VfsEntry accessors ---------------------------------------------------------------
+    dict(name="c13_vfsentry_memfs_accessors", file="verif_entry", props=["C13"], tier="quick", weight=2,
+         functions=["impl Entry for VfsEntry (Memfs arm) incl. trait default methods"], bounds="all flags/mode/uid/gid symbolic, concrete paths of pairwise different lengths"),
+    dict(name="c13_vfsentry_stdfs_accessors", file="verif_entry", props=["C13"], tier="quick", weight=2,
+         functions=["impl Entry for VfsEntry (Stdfs arm) incl. trait default methods"], bounds="all flags/mode symbolic"),
+    dict(name="c13_follow_swaps_once", file="verif_entry", props=["C13"], tier="quick", weight=2,
+         functions=["MemfsEntry::follow", "VfsEntry::follow", "VfsEntry::upcast"], bounds="all flags symbolic, follow argument symbolic, second follow(true)"),
+    dict(name="c13_follow_swaps_once_stdfs", file="verif_entry", props=["C13"], tier="quick", weight=2,
+         functions=["StdfsEntry::follow", "VfsEntry::follow"], bounds="all flags symbolic"),
+    dict(name="c13_entry_witness", file="verif_entry", props=["C13"], tier="quick", weight=1, witness=True, functions=[], bounds="vacuity twin"),
+]
+
 STUBS = []  # filled as harnesses start to need them (listed in evidence)
 
 LEVEL = {
@@ -92,6 +114,18 @@ ASSUMPTIONS = {
     "C14": MIRSYM_ASSUMPTIONS + [
         "std::path::{Path,PathBuf,Components,Component} are bounded sequence models (environment stubs), validated against real std natively",
         "inputs are component sequences (the image of every path string under std's tokeniser); spelling-only differences are outside the claim",
+    ],
+    "C11": MIRSYM_ASSUMPTIONS + [
+        "&str is a symbolic char array of concrete length (each length / template its own batch); Vec<char>, Option, Result, VfsError construction are modelled structurally",
+        "VfsEntry accessors (mode, is_dir, is_file, is_symlink) are symbolic inputs with not(is_dir and is_file)",
+        "oracle: independent restatement of `[dfa]:[ugoa]+[-+=][rwx]+(,...)*` in lib/e2_jobs.py (chmod_oracle), each clause applied to the entry kind it targets",
+        "Kani harnesses kani/verif_entry.rs build MemfsEntry/StdfsEntry by struct literal (files: None)",
+        "outside the claim: tree traversal of recursive chmod/chown",
+    ],
+    "C18": MIRSYM_ASSUMPTIONS + [
+        "environment stub: env::var(const NAME) is a symbolic Option<String> per name; str::split(':') is a symbolic list of bounded length with a symbolic emptiness flag per segment",
+        "PathBuf::from, PathExt::mash, exists, str::parse::<u32> are uninterpreted functions (mash itself belongs to C15, not claimed)",
+        "oracle: table of (variable, default) pairs written from the XDG Base Directory text in lib/e2_jobs.py",
     ],
     "C16": MIRSYM_ASSUMPTIONS + [
         "std path types and Vec<Component> are bounded sequence models (environment stubs), validated against real std natively",
